@@ -519,6 +519,32 @@ MInit(prog, fuel) ==
 \* the value a print statement shows: the 128-bit pattern of the value extended by its own signedness
 Shown(x) == IF x.t = "bool" THEN x.v ELSE Resize(x.v, 128, Signed(x.t))
 
+(***************************************************************************)
+(* Named lengths (C10: "a named constant used as an array length gives     *)
+(* arrays of exactly that many elements").  A type `[NAME]T` travels as    *)
+(* [k |-> "array", n, e, nc |-> NAME]; the machine lays the array out with *)
+(* n elements, so a program is only meaningful if n IS the value the       *)
+(* machine computes for the constant NAME.  (Dimension audit: the random   *)
+(* generator writes named lengths; Trace_Machine demands this of every     *)
+(* logged program.)                                                        *)
+(***************************************************************************)
+RECURSIVE NamedLengthOK(_, _)
+NamedLengthOK(glob, ty) ==
+    CASE ty.k = "array" -> /\ ("nc" \in DOMAIN ty =>
+                                 LET i == Lookup(glob, ty.nc)
+                                 IN i # 0 /\ glob[i].v.t = "usize" /\ glob[i].v.v = FromNat(ty.n, 64))
+                           /\ NamedLengthOK(glob, ty.e)
+      [] ty.k \in {"ptr", "view"} -> NamedLengthOK(glob, ty.e)
+      [] OTHER -> TRUE
+\* every type written in a declaration of the program: members, constants, parameters, results, variables
+NamedLengthsOK(prog, glob) ==
+    /\ \A i \in 1..Len(Structs(prog)) : \A j \in 1..Len(Structs(prog)[i].ms) : NamedLengthOK(glob, Structs(prog)[i].ms[j].ty)
+    /\ \A i \in 1..Len(prog.consts) : ("ty" \in DOMAIN prog.consts[i] => NamedLengthOK(glob, prog.consts[i].ty))
+    /\ \A i \in 1..Len(prog.fns) :
+          /\ \A j \in 1..Len(prog.fns[i].params) : NamedLengthOK(glob, prog.fns[i].params[j].ty)
+          /\ \A j \in 1..Len(prog.fns[i].body) :
+                (prog.fns[i].body[j].k = "V" /\ "ty" \in DOMAIN prog.fns[i].body[j]) => NamedLengthOK(glob, prog.fns[i].body[j].ty)
+
 RECURSIVE RunFrom(_, _)
 \* run to completion (used by the case-emitting configurations; bounded by fuel)
 RunFrom(prog, m) == IF m.status # "run" THEN m ELSE RunFrom(prog, MStep(prog, m))
